@@ -1,21 +1,44 @@
 package main
 
-// probe: scratch tool to ask go-cty questions while calibrating the model.
+// probe: scratch tool to replay model witnesses on the real evaluator.
 import (
 	"fmt"
 
+	"github.com/hashicorp/hcl/v2"
+	"github.com/hashicorp/hcl/v2/hclsyntax"
 	"github.com/zclconf/go-cty/cty"
-	"github.com/zclconf/go-cty/cty/convert"
+	"hclverif/hv"
 )
 
+func run(src string, vars map[string]cty.Value) {
+	e, d := hclsyntax.ParseExpression([]byte(src), "p.hcl", hcl.InitialPos)
+	if d.HasErrors() {
+		fmt.Println("parse:", d)
+		return
+	}
+	ctx := &hcl.EvalContext{Variables: vars, Functions: hv.HarnessFuncs}
+	v, diags := e.Value(ctx)
+	fmt.Printf("%-28s => %#v   diags=%v\n", src, v, diags)
+}
+
 func main() {
-	a := cty.Tuple([]cty.Type{cty.List(cty.Bool), cty.String, cty.DynamicPseudoType})
-	b := cty.List(cty.DynamicPseudoType)
-	t, _ := convert.UnifyUnsafe([]cty.Type{a, b})
-	fmt.Printf("%#v\n", t)
-	t, _ = convert.UnifyUnsafe([]cty.Type{cty.List(cty.Bool), cty.String, cty.DynamicPseudoType})
-	fmt.Printf("%#v\n", t)
-	fmt.Println(convert.GetConversionUnsafe(a, cty.List(cty.DynamicPseudoType)) != nil)
-	t, _ = convert.UnifyUnsafe([]cty.Type{a})
-	fmt.Printf("%#v\n", t)
+	m := func(v cty.Value) cty.Value { return v.Mark("s") }
+	n := func(i int64) cty.Value { return cty.NumberIntVal(i) }
+	for _, s := range []cty.Value{m(n(0)), m(n(5))} {
+		run(`true || t[s]`, map[string]cty.Value{"t": cty.TupleVal([]cty.Value{cty.False}), "s": s})
+		run(`true ? 1 : t[s]`, map[string]cty.Value{"t": cty.TupleVal([]cty.Value{n(7)}), "s": s})
+	}
+	for _, s := range []cty.Value{m(n(0)), m(n(1))} {
+		run(`false ? [t[s]] : l`, map[string]cty.Value{"t": cty.TupleVal([]cty.Value{n(1), cty.StringVal("a")}), "l": cty.ListVal([]cty.Value{n(1), n(2)}), "s": s})
+		run(`l[*][s]`, map[string]cty.Value{"l": cty.ListVal([]cty.Value{cty.TupleVal([]cty.Value{cty.StringVal("a"), n(1)})}), "s": s})
+	}
+	for _, s := range []cty.Value{m(cty.ListValEmpty(cty.Number)), m(cty.ListVal([]cty.Value{n(1)}))} {
+		run(`sum(s...)`, map[string]cty.Value{"s": s})
+	}
+	for _, s := range []cty.Value{m(cty.NullVal(cty.Bool)), m(cty.True)} {
+		run(`[for x in t : 1 if x]`, map[string]cty.Value{"t": cty.TupleVal([]cty.Value{cty.UnknownVal(cty.Bool), s})})
+	}
+	for _, s := range []cty.Value{m(cty.UnknownVal(cty.Number)), m(n(0))} {
+		run(`l[t[s]]`, map[string]cty.Value{"t": cty.TupleVal([]cty.Value{n(0), n(1)}), "l": cty.ListVal([]cty.Value{n(10), n(20)}), "s": s})
+	}
 }
